@@ -48,17 +48,27 @@ class Labeled:
     __hash__ = None  # type: ignore
 
 
+STRICT = [False]
+
+
 def _label_conv(source: str) -> t.Any:
     from pane.converters import Converter
+    from pane.errors import ParseInterrupt, WrongTypeError
+    strict = STRICT[0]
 
     class LabelConv(Converter[t.Any]):
         def expected(self, plural: bool = False) -> str:
             return f"marker via {source}"
 
         def try_convert(self, val: t.Any) -> t.Any:
+            # (strict: written like the example of docs/using/advanced.md - only the data form is read, a typed value is not data)
+            if strict and not isinstance(val, (int, list, dict)):
+                raise ParseInterrupt()
             return Labeled(source, val)
 
-        def collect_errors(self, val: t.Any) -> None:
+        def collect_errors(self, val: t.Any) -> t.Any:
+            if strict and not isinstance(val, (int, list, dict)):
+                return WrongTypeError(self.expected(), val)
             return None
 
         def into_data(self, val: t.Any) -> t.Any:
@@ -157,7 +167,8 @@ def cases(draw) -> t.Any:
     # they must not stop the search from going on to the enclosing class
     other = draw(st.sampled_from(['none', 'none', 'mapping-other-type', 'declining-callable', 'base-other-type']))
     inner_wrap = draw(st.sampled_from(['plain', 'plain', 'Optional', 'List', 'Union']))   # how Outer holds Inner
-    return [srcs, pos, form, direction, sub, other, inner_wrap]
+    strict = direction == 'into' and draw(st.booleans())     # converters that read the data form only; the typed values are instances of M
+    return [srcs, pos, form, direction, sub, other, inner_wrap, strict]
 
 
 def render(case: t.Any) -> t.Any:
@@ -172,6 +183,7 @@ def check(case: t.Any, ctx: Ctx) -> None:
     (srcs, pos, form, direction, sub) = case[:5]
     other = case[5] if len(case) > 5 else 'none'
     inner_wrap = case[6] if len(case) > 6 else 'plain'
+    STRICT[0] = bool(case[7]) if len(case) > 7 else False
     srcs = list(srcs)
     if pos != 'direct' and 'F' in srcs:
         srcs.remove('F')
@@ -259,7 +271,9 @@ def check(case: t.Any, ctx: Ctx) -> None:
     expected = present[0] if present else None
     ctx.label(f"pos:{pos}", f"dir:{direction}", f"winner:{expected}", f"nsrc:{min(len(present), 4)}", f"other:{other}", f"held:{inner_wrap}")
     ctx.nontrivial(len(present) >= 2 and pos != 'outer-field')
-    ident = (f"sources {present} (call form {form}), M at {pos}{' via a subclass of the containing class' if sub else ''}, direction {direction}, "
+    if STRICT[0]:
+        ctx.label('strict-converters')
+    ident = (f"{'strict converters, ' if STRICT[0] else ''}sources {present} (call form {form}), M at {pos}{' via a subclass of the containing class' if sub else ''}, direction {direction}, "
              f"other handlers on the containing class: {other}, Outer holds Inner as {inner_wrap}")
 
     if pos == 'top-List':
@@ -337,7 +351,7 @@ def check(case: t.Any, ctx: Ctx) -> None:
     else:
         # (typed positions are serialised by the declared type M whatever the value is; untyped ones by the value's runtime type,
         #  so there the value has to be a real instance of M)
-        mv: t.Any = M() if pos in ANY_POSITIONS else Labeled('x', 7)
+        mv: t.Any = M() if (pos in ANY_POSITIONS or STRICT[0]) else Labeled('x', 7)
         inner_val: t.Any = {'direct': mv, 'List': [mv], 'Dict': {'k': mv}, 'Optional': mv, 'Tuple': (mv, 1), 'outer-field': mv, 'Bag': Bag([mv]),
                             'Dict-of-Bag': {'k': Bag([mv])}, 'List[Any]': [mv], 'Any': mv, 'Tuple[Any, int]': (mv, 1), 'Dict[str, Any]': {'k': mv}}[pos]
         inner_inst = InnerUsed.make_unchecked(m=inner_val)
